@@ -118,6 +118,9 @@ func (c *Ciphertext) UnmarshalCBOR(data []byte) error {
 	if err != nil {
 		return errs.Wrap(err).WithMessage("could not unmarshal ciphertext")
 	}
+	if dto == nil {
+		return encryption.ErrIsNil.WithMessage("Ciphertext DTO is nil")
+	}
 	if dto.C == nil {
 		return encryption.ErrIsNil.WithMessage("ciphertext component C is nil")
 	}
@@ -210,6 +213,9 @@ func (n *Nonce) UnmarshalCBOR(data []byte) error {
 	dto, err := serde.UnmarshalCBOR[*nonceDTO](data)
 	if err != nil {
 		return errs.Wrap(err).WithMessage("could not unmarshal nonce")
+	}
+	if dto == nil {
+		return encryption.ErrIsNil.WithMessage("Nonce DTO is nil")
 	}
 	if dto.R == nil {
 		return encryption.ErrIsNil.WithMessage("nonce component R is nil")
@@ -345,6 +351,9 @@ func (pt *Plaintext) UnmarshalCBOR(data []byte) error {
 	dto, err := serde.UnmarshalCBOR[*plaintextDTO](data)
 	if err != nil {
 		return errs.Wrap(err).WithMessage("could not unmarshal plaintext")
+	}
+	if dto == nil {
+		return encryption.ErrIsNil.WithMessage("Plaintext DTO is nil")
 	}
 	ptt, err := NewPlaintext(dto.P)
 	if err != nil {
